@@ -69,6 +69,19 @@ def run_configs(ctx, configs, nontrivial_keys, rule, assumptions,
     weights = [e[5] if len(e) > 5 else 1.0 for e in configs]
     wsum = sum(weights)
     impl_exc = 0
+    # World A (Cell API) has no string-hash dependent iteration (insertion
+    # ordered dicts, sets of small ints only): it is explored under the first
+    # hash seed only; World B configurations are repeated under every seed
+    if getattr(ctx, 'hash_index', 0) > 0:
+        sensitive = [e for e in configs
+                     if (e[4] if len(e) > 4 else (spec_cls or CellSpec))
+                     is not CellSpec and not issubclass(
+                         (e[4] if len(e) > 4 else (spec_cls or CellSpec)),
+                         CellSpec)]
+        if sensitive:
+            configs = sensitive
+    weights = [e[5] if len(e) > 5 else 1.0 for e in configs]
+    wsum = sum(weights)
     for entry in configs:
         name, cfg, depth, max_dev = entry[:4]
         cls = entry[4] if len(entry) > 4 else (spec_cls or CellSpec)
